@@ -78,6 +78,13 @@ def build_specs(basic_nodes: dict, basic_marks: dict, list_nodes: dict) -> dict:
     n["cell"] = {"content": "block+", "isolating": True, "parseDOM": [{"tag": "td"}], "toDOM": lambda _n: ["td", 0]}
     Z["table"] = {"nodes": n, "marks": _strip(basic_marks)}
 
+    # Z8b the same table structure without isolating flags (multi-level lifts are possible)
+    n = _strip(ln)
+    n["table"] = {"content": "row+", "group": "block"}
+    n["row"] = {"content": "cell+"}
+    n["cell"] = {"content": "block+"}
+    Z["grid"] = {"nodes": n, "marks": _strip(basic_marks)}
+
     # Z9 marks on top-level blocks
     n = _strip(basic_nodes)
     n["doc"] = {**n["doc"], "marks": "_"}
@@ -107,7 +114,7 @@ def build_specs(basic_nodes: dict, basic_marks: dict, list_nodes: dict) -> dict:
     }
     # Z-ctx: list schema + a `note` block whose parse rule is restricted by a context expression
     for cid, ctx in (("ctx_bq", "blockquote/"), ("ctx_li", "list_item/"), ("ctx_bq_any", "blockquote//"),
-                     ("ctx_alt", "doc/|list_item/"), ("ctx_grp", "block/")):
+                     ("ctx_alt", "doc/|list_item/"), ("ctx_grp", "block/"), ("ctx_gp", "bullet_list/list_item/")):
         n = _strip(ln)
         # any block may come first in a list item, so that a context-selected `note` can always be placed
         n["list_item"] = {**n["list_item"], "content": "block+"}
